@@ -524,6 +524,14 @@ PROPS["C07"] = {
           ["RtpHeader::get_extension", "RtpHeader::set_extension", "RtpHeaderExtension::new"],
           "verbatim get_extension (one-byte 0xBEDE and two-byte 0x1000 walkers) and set_extension (rebuild of a one-byte block) on an arbitrary received block: every index, Bytes::slice range and extend_from_slice source range is in bounds, no arithmetic overflows, all three loops terminate. set_extension is taken on blocks RtpHeader::parse can produce (at most 65535 words)",
           min_verified=8),
+        V("RTP / SRTP packet framing: total for input of ANY length (Verus)", "rtp_parse_total", "quick", "proof",
+          ["RtpHeader::parse", "RtpPacket::parse", "RtpPacket::parse_bytes", "SrtpPacket::parse"],
+          "verbatim RtpHeader::parse<B: Buf> (CSRC list, extension block), RtpPacket::parse_bytes (padding octet), RtpPacket::parse, SrtpPacket::parse against the assumed bytes::Buf contract: for every datagram every read is within the remaining data, csrc_count*4 and extension_len*4 do not overflow, the padding count never exceeds the payload. The CSRC iterator expression is moved unchanged into a wrapper with the contract 'csrc_count reads of 4 octets'",
+          min_verified=5),
+        V("DCEP messages: total for input of ANY length (Verus)", "dcep_total", "quick", "proof",
+          ["DataChannelOpen::unmarshal", "DataChannelAck::unmarshal"],
+          "verbatim DCEP OPEN / ACK decoders against the assumed bytes::Bytes contract: label_len + protocol_len is checked before both split_to calls, no read past the end, for every message length (the Kani stand-in did not finish at 14 symbolic bytes)",
+          min_verified=4),
     ],
 }
 
